@@ -49,6 +49,12 @@ impl Entity {
     /// the attribute map as (key, value) pairs, each key once
     #[verifier::external_body] pub fn attrs(&self) -> (r: VxIter<(&SmolStr, &PartialValue)>) ensures pairs_of(r.items(), self.spec_attrs()) { unimplemented!() }
     #[verifier::external_body] pub fn tags(&self) -> (r: VxIter<(&SmolStr, &PartialValue)>) ensures pairs_of(r.items(), self.spec_tags()) { unimplemented!() }
+    /// the direct parents: some of the ancestors (Entity::parents: unit entity_hier)
+    pub uninterp spec fn spec_parents(&self) -> SSet<EntityUID>;
+    #[verifier::external_body] pub fn parents(&self) -> (r: VxIter<&EntityUID>)
+        ensures self.spec_parents().subset_of(self.spec_ancestors()),
+            forall|i: int| 0 <= i < r.items().len() ==> self.spec_parents().contains(*(#[trigger] r.items()[i])),
+            forall|u: EntityUID| self.spec_parents().contains(u) ==> exists|i: int| 0 <= i < r.items().len() && *(#[trigger] r.items()[i]) == u { unimplemented!() }
     #[verifier::external_body] pub fn ancestors(&self) -> (r: VxIter<&EntityUID>)
         ensures forall|i: int| 0 <= i < r.items().len() ==> self.spec_ancestors().contains(*(#[trigger] r.items()[i])),
             forall|u: EntityUID| self.spec_ancestors().contains(u) ==> exists|i: int| 0 <= i < r.items().len() && *(#[trigger] r.items()[i]) == u { unimplemented!() }
